@@ -166,8 +166,20 @@ static int rd_advance(MPT_INTERFACE(rawdata) *ptr)
 	    && act < (long) (buf->_used / sizeof(MPT_STRUCT(rawdata_stage)))) {
 		return act;
 	}
-	/* add cycle placeholder */
-	if (!mpt_array_append(&rd->st, sizeof(MPT_STRUCT(rawdata_stage)), 0)) {
+	/* add cycle placeholder: the buffer must carry the stage traits,
+	 * value stores assigned later are released with it */
+	if (!buf) {
+		const MPT_STRUCT(type_traits) *traits;
+		MPT_STRUCT(buffer) *next;
+		if (!(traits = mpt_stage_traits())
+		    || !(next = _mpt_buffer_alloc(traits->size, 0))) {
+			return 0;
+		}
+		next->_content_traits = traits;
+		rd->st._buf = next;
+		buf = next;
+	}
+	if (!mpt_array_slice(&rd->st, buf->_used, sizeof(MPT_STRUCT(rawdata_stage)))) {
 		return 0;
 	}
 	rd->act = act;
